@@ -57,7 +57,7 @@ def run(ctx, canary=False):
                                        "unbounded": "attributes d, rounds T (10T >= 9d) and annealing depth arbitrary",
                                        "negative_control": "without rounds >= 0.9 d the invariant is refuted (finding F7)"}
     scs = MC.adversarial(rng) + MC.scenarios(rng, 160 if thorough else 28)
-    jobs, results = MC.run_all(scs, None if thorough else 5, rng)
+    jobs, results = MC.run_all(scs, None if thorough else 5, rng, far=True)
     traces = []
     for (sc, nb), res in zip(jobs, results):
         info = {"mechanism": sc["mech"], "params": sc["params"], "attrs": sc["attrs"], "sizes": sc["sizes"], "records": sc["records"], "seed": sc["seed"]}
@@ -69,6 +69,8 @@ def run(ctx, canary=False):
         dp = MC.design_params(sc)
         for pr in res["pairs"]:
             pinfo = dict(info, neighbour=pr["label"], spent_over_budget=pr["spent"], worst_primitive=pr["worst"])
+            if pr.get("on_path"):
+                pinfo.update(records=pr["base_records"], neighbour_records=pr["neighbour_records"], observations_recorded_on=sc["records"])
             ctx.case(json.dumps([info, pr["label"]], sort_keys=True), nontrivial=True)
             if pr["err2"] and not pr["err2"].startswith("diverged"):
                 ctx.violation("%s on neighbour %s %s" % (sc["mech"], pr["label"], pr["err2"]), pinfo, dict(cls, kind="crash"))
